@@ -3,6 +3,8 @@ import FxVerif.Proofs.C14
 import FxVerif.Proofs.C14Bank
 import FxVerif.Proofs.C14Queue
 import FxVerif.Proofs.C14Exec
+import FxVerif.Proofs.C14Sim
+import FxVerif.Proofs.C14SimInit
 /-!
 # C14 — account migration moves everything, once, to the address that authorised it
 
@@ -713,6 +715,58 @@ theorem later_behaviour_equal_records {s s' : State} {frm to : Addr} {sigOk : Bo
   · rw [h1]; simp [hne]
   · rw [h2]; simp [hne]
 
+/-! ## later_behaviour_equal as a simulation over every later history -/
+
+/-- **later_behaviour_equal** (simulation).  Let a migration of `frm` to `to` be accepted in `s`, giving `s'`, and let
+`s0` be `s` with the target's prior coins handed to the source (if the target held nothing, `s0` has the ledger of `s`).
+Then for EVERY later history without a further migration — sends, delegations, undelegations, redelegations, reward
+withdrawals, withdraw-address settings, proposals, deposits, votes, and blocks whose end blockers mature unbonding and
+redelegation entries, refund deposits and close proposals — the history run from `s0` and the same history with source
+and target swapped (`swOp`: the target acts where the source did) run from `s'` give the same answer at every step and
+end in states that are each other's image under the swap (`Sim`): balances of every denomination, delegations with
+their starting infos, unbonding and redelegation records, all four indexes, the unbonding-id index, both time queues
+(slice by slice, in order), withdraw addresses, proposals, deposits and votes.  In particular every matured entry and
+every reward the source would have been paid is paid to the target.
+
+Hypothesis `wf : MigWF s frm to`: the keepers' bookkeeping for the source's records is consistent in `s` (an index
+entry, a queue element, an unbonding id and a starting info exist exactly together with their record), the target is
+unknown to staking, neither address is a module pool, and no withdraw-address setting, deposit, vote or vesting schedule
+mentions either address. -/
+theorem later_behaviour_equal {s s' : State} {frm to : Addr} {sigOk : Bool}
+    (h : migrate cfg s frm to sigOk = .ok s') (wf : MigWF s frm to)
+    (later : List Op) (hl : ∀ op ∈ later, isMigrate op = false) :
+    Sim frm to (run cfg (bankExecute cfg s to frm) later) (run cfg s' (later.map (swOp frm to))) ∧
+    trace cfg (bankExecute cfg s to frm) later = trace cfg s' (later.map (swOp frm to)) := by
+  have hto := target_without_staking_records h
+  obtain ⟨hne, _, _, _, _, _, _, rfl⟩ := migrate_ok_inv h
+  have hc1 : cfg.rewriteDelIdx = true := by rw [cfg_from_code]
+  have hc2 : cfg.rewriteUnbId = true := by rw [cfg_from_code]
+  exact sim_run wf.modFix cfg later hl (sim_init cfg hc1 hc2 cfg_bankAll s hne hto wf)
+
+/-- **later_behaviour_equal** (what the target holds and can do): after any such later history the target holds, in
+every denomination, exactly what the source would hold (matured unbonding entries and rewards included), has exactly the
+delegations, unbonding delegations and redelegations the source would have, and the retired source address holds what
+the unused target address would. -/
+theorem later_behaviour_equal_holdings {s s' : State} {frm to : Addr} {sigOk : Bool}
+    (h : migrate cfg s frm to sigOk = .ok s') (wf : MigWF s frm to)
+    (later : List Op) (hl : ∀ op ∈ later, isMigrate op = false) :
+    let a := run cfg (bankExecute cfg s to frm) later
+    let b := run cfg s' (later.map (swOp frm to))
+    (∀ d, balOf b.bal to d = balOf a.bal frm d ∧ balOf b.bal frm d = balOf a.bal to d) ∧
+    (∀ v, get b.dels (to, v) = get a.dels (frm, v) ∧ get b.startInfo (v, to) = get a.startInfo (v, frm) ∧
+          get b.ubds (to, v) = get a.ubds (frm, v)) ∧
+    (∀ x y, get b.reds (to, x, y) = get a.reds (frm, x, y)) ∧ b.now = a.now := by
+  intro a b
+  have hs := (later_behaviour_equal h wf later hl).1
+  refine ⟨fun d => ⟨?_, ?_⟩, fun v => ⟨?_, ?_, ?_⟩, fun x y => ?_, hs.now⟩
+  · have := hs.bal frm d; rwa [sw_frm] at this
+  · have := hs.bal to d; rwa [sw_to] at this
+  · have := hs.dels.get_id (frm, v); simpa [swP, sw_frm] using this
+  · have := hs.startInfo.get_id (v, frm); simpa [swS, sw_frm] using this
+  · have := hs.ubds.get_id (frm, v); simpa [swP, sw_frm] using this
+  · have := hs.reds.get_id (frm, x, y); simpa [swP, sw_frm] using this
+
+
 /-- involvement of `a` in proposal `id`: proposer, depositor, or (for proposals in the voting period) voter -/
 def involvedDeposit (s : State) (a : Addr) (id : Nat) : Prop :=
   (∃ pr, get s.props id = some pr ∧ pr.proposer = a) ∨ (get s.deposits (id, a)).isSome = true
@@ -781,5 +835,99 @@ example : migrate cfg exState 1 11 false = .error .sig := rfl
 example : migrate cfg exState 1 2 true = .error .toStaking := rfl
 example : (2 = 2 ∨ 2 = 12) ∧ ((210, 1) ∈ exState.inactiveQ ∧ involvedDeposit exState 2 1) :=
   ⟨Or.inl rfl, by decide, Or.inl ⟨_, rfl, rfl⟩⟩
+
+/-! ### non-vacuity of later_behaviour_equal -/
+
+/-- the example state with a funded not-bonded pool -/
+def exLater : State := { exState with bal := ((notBondedPool, 0), 40) :: exState.bal }
+
+/-- the consistency hypothesis of `later_behaviour_equal` holds in the example state for the pair (1, 11) -/
+theorem exLater_wf : MigWF exLater 1 11 := by
+  refine ⟨⟨by decide, by decide, by decide⟩, fun v => ⟨fun h => ?_, fun ⟨sh, h⟩ => ?_⟩, fun v h => ?_, fun v h => ?_, fun v => ?_,
+    fun v => ⟨fun h => ?_, fun ⟨es, h⟩ => ?_⟩, fun v h => ?_, fun x => ⟨fun h => ?_, fun ⟨es, h⟩ => ?_⟩, fun x h => ?_,
+    fun x => ⟨fun h => ?_, fun ⟨es, h⟩ => ?_⟩, fun x h => ?_, by decide, fun p hp x hx e => ?_, fun p hp x hx => ?_,
+    by decide, fun p hp x hx e => ?_, fun p hp x hx => ?_, fun v es e hg he => ?_, fun a b es e hg he => ?_,
+    fun id r hg e => ?_, fun id r hg => ?_, rfl, rfl, fun a w h => ?_, fun p hp => ?_, fun p hp => ?_, rfl, rfl⟩
+  · have : v = 100 ∨ v = 102 := by simpa [exLater, exState] using h
+    rcases this with rfl | rfl <;> exact ⟨_, rfl⟩
+  · have := get_some_mem _ _ _ h
+    simp [exLater, exState] at this ⊢
+    rcases this with ⟨rfl, _⟩ | ⟨rfl, _⟩ <;> simp
+  · simp [exLater, exState] at h
+  · apply get_none_of_no_key
+    intro p hp e
+    simp only [exLater, exState, List.mem_cons, List.not_mem_nil, or_false] at hp
+    rcases hp with rfl | rfl | rfl <;> cases e <;> exact absurd h (by decide)
+  · apply get_none_of_no_key
+    intro p hp e
+    simp only [exLater, exState, List.mem_cons, List.not_mem_nil, or_false] at hp
+    rcases hp with rfl | rfl | rfl <;> cases e
+  · have : v = 100 := by simpa [exLater, exState] using h
+    subst this; exact ⟨_, rfl⟩
+  · have := get_some_mem _ _ _ h
+    simp [exLater, exState] at this ⊢
+    exact this.1
+  · simp [exLater, exState] at h
+  · obtain ⟨a, b⟩ := x
+    have : a = 101 ∧ b = 102 := by simpa [exLater, exState] using h
+    obtain ⟨rfl, rfl⟩ := this; exact ⟨_, rfl⟩
+  · obtain ⟨a, b⟩ := x
+    have := get_some_mem _ _ _ h
+    simp [exLater, exState] at this ⊢
+    exact ⟨this.1.1, this.1.2⟩
+  · simp [exLater, exState] at h
+  · obtain ⟨a, b⟩ := x
+    have : b = 102 ∧ a = 101 := by simpa [exLater, exState] using h
+    obtain ⟨rfl, rfl⟩ := this; exact ⟨_, rfl⟩
+  · obtain ⟨a, b⟩ := x
+    have := get_some_mem _ _ _ h
+    simp [exLater, exState] at this ⊢
+    exact ⟨this.1.2, this.1.1⟩
+  · simp [exLater, exState] at h
+  · simp only [exLater, exState, List.mem_cons, List.not_mem_nil, or_false] at hp
+    subst hp
+    exact ⟨100, _, rfl, _, List.mem_cons_self .., rfl⟩
+  · simp only [exLater, exState, List.mem_cons, List.not_mem_nil, or_false] at hp
+    subst hp
+    simp only [List.mem_cons, List.not_mem_nil, or_false] at hx
+    rcases hx with rfl | rfl <;> decide
+  · simp only [exLater, exState, List.mem_cons, List.not_mem_nil, or_false] at hp
+    subst hp
+    exact ⟨(101, 102), _, rfl, _, List.mem_cons_self .., rfl⟩
+  · simp only [exLater, exState, List.mem_cons, List.not_mem_nil, or_false] at hp
+    subst hp
+    simp only [List.mem_cons, List.not_mem_nil, or_false] at hx
+    subst hx; decide
+  · have := get_some_mem _ _ _ hg
+    simp [exLater, exState] at this
+    obtain ⟨rfl, rfl⟩ := this
+    simp only [List.mem_cons, List.not_mem_nil, or_false] at he
+    subst he; rfl
+  · have := get_some_mem _ _ _ hg
+    simp [exLater, exState] at this
+    obtain ⟨⟨rfl, rfl⟩, rfl⟩ := this
+    simp only [List.mem_cons, List.not_mem_nil, or_false] at he
+    subst he; rfl
+  · have := get_some_mem _ _ _ hg
+    simp only [exLater, exState, List.mem_cons, List.not_mem_nil, or_false] at this
+    rcases this with h1 | h1 | h1 <;> cases h1
+    · exact Or.inl ⟨100, _, _, rfl, List.mem_cons_self .., rfl⟩
+    · cases e
+    · exact Or.inr ⟨101, 102, _, _, rfl, List.mem_cons_self .., rfl⟩
+  · have := get_some_mem _ _ _ hg
+    simp only [exLater, exState, List.mem_cons, List.not_mem_nil, or_false] at this
+    rcases this with h1 | h1 | h1 <;> cases h1 <;> decide
+  · exact absurd h (by simp [exLater, exState, get_nil])
+  · simp only [exLater, exState, List.mem_cons, List.not_mem_nil, or_false] at hp
+    subst hp; decide
+  · simp [exLater, exState] at hp
+/-- the migration of 1 to 11 is accepted in `exLater`; two blocks later (time 311 > 305) the unbonding entry of the
+former source has matured and its 10 coins are paid to the target 11, whose unbonding record is gone; the retired
+source 1 holds nothing -/
+example : ∃ s', migrate cfg exLater 1 11 true = .ok s' ∧
+    balOf (run cfg s' [.block 300, .block 1]).bal 11 0 = balOf s'.bal 11 0 + 10 ∧
+    get s'.ubds (11, 100) = some [(305, 10, 1)] ∧ get (run cfg s' [.block 300, .block 1]).ubds (11, 100) = none ∧
+    balOf (run cfg s' [.block 300, .block 1]).bal 1 0 = 0 :=
+  ⟨_, rfl, by decide, by decide, by decide, by decide⟩
 
 end FxVerif.Props.C14
